@@ -40,6 +40,8 @@ type recorder struct {
 	pending  map[string]bool // snapshot taken, becomes durable at the next hook
 	listing  map[string]bool // directory entries at the last (durable) directory fsync
 	pendList map[string]bool
+	listIno  map[string]uint64 // inode of each listed entry: names are reused (NNNNN.mem after a re-open)
+	pendIno  map[string]uint64
 	everSync bool
 	ino      map[string]uint64
 }
@@ -85,6 +87,7 @@ func (r *recorder) tick() {
 	r.pending = map[string]bool{}
 	if r.pendList != nil {
 		r.listing, r.pendList = r.pendList, nil
+		r.listIno, r.pendIno = r.pendIno, nil
 		r.everSync = true
 	}
 }
@@ -131,11 +134,13 @@ func (r *recorder) event(op, path string) {
 			return
 		}
 		l := map[string]bool{}
+		li := map[string]uint64{}
 		ents, _ := os.ReadDir(r.cs.Dir)
 		for _, e := range ents {
 			l[e.Name()] = true
+			li[e.Name()] = inode(filepath.Join(r.cs.Dir, e.Name()))
 		}
-		r.pendList = l
+		r.pendList, r.pendIno = l, li
 	}
 }
 
@@ -179,7 +184,11 @@ func (r *recorder) materialise() {
 		switch {
 		case alwaysDurable(f):
 			copyFile(filepath.Join(r.cs.Dir, f), dst)
-		case r.durable[f] && (f == "MANIFEST" || r.ino[f] == inode(filepath.Join(r.cs.Dir, f)) || now[f] == 0 && r.cs.Variant == 2):
+		case r.durable[f] && (f == "MANIFEST" || r.ino[f] == inode(filepath.Join(r.cs.Dir, f))):
+			copyFile(filepath.Join(r.shadow, f), dst)
+		case r.durable[f] && r.cs.Variant == 2 && inode(filepath.Join(r.cs.Dir, f)) == 0 && r.ino[f] == r.listIno[f]:
+			// the entry was removed after the last directory fsync: the file comes back with the
+			// last synced content OF THAT FILE (not of an earlier file that had the same name)
 			copyFile(filepath.Join(r.shadow, f), dst)
 		case strings.HasSuffix(f, ".pending"):
 		default:
